@@ -2,7 +2,7 @@
    handles are released and all threads have finished, leaves every cell deallocated. *)
 From Coq Require Import List Arith ZArith Lia Bool.
 Import ListNotations.
-From GV Require Import Sched Events RcuModel RcuBase RcuListProofs RcuLogProofs RcuSafetyProofs RcuLedgerProofs.
+From GV Require Import Sched Events RcuModel RcuBase RcuListProofs RcuRawProofs RcuLogProofs RcuSafetyProofs RcuLedgerProofs.
 Local Open Scope nat_scope.
 
 Record InvK (g : glob) (ls : list loc) : Prop := {
@@ -99,6 +99,19 @@ Proof.
   split.
   - intros j. rewrite isnode_alloc, cs_of_alloc. destruct (Nat.eqb_spec j (nheap g)); [discriminate|auto].
   - intros z. rewrite isrec_alloc. destruct (Nat.eqb_spec z (nheap g)); auto.
+Qed.
+
+Lemma ns_alloc_raw g : nodes_same g (fst (do_alloc g BRaw)) /\ recs_old g (fst (do_alloc g BRaw)).
+Proof.
+  split.
+  - intros j. rewrite isnode_alloc, cs_of_alloc. destruct (Nat.eqb_spec j (nheap g)); [discriminate|auto].
+  - intros z. rewrite isrec_alloc. destruct (Nat.eqb_spec z (nheap g)); [discriminate|auto].
+Qed.
+Lemma ns_dealloc_raw g n : nodes_same g (fst (do_dealloc_raw g n)) /\ recs_old g (fst (do_dealloc_raw g n)).
+Proof.
+  split.
+  - intros j. rewrite isnode_dealloc_raw. intros Hj. split; [exact Hj|]. apply cs_of_dealloc_raw. left. exact Hj.
+  - intros z. rewrite isrec_dealloc_raw. auto.
 Qed.
 
 Lemma InvK_frame2 g g' ls t l l' x :
@@ -464,7 +477,7 @@ Proof.
     | cbn [at_ priv_rec]; intros z1 E1; discriminate ]).
   all: try (
     match type of Hl with nth_error _ _ = Some {| prog := _; at_ := ?pp; hnd := _; its := _ |} =>
-      match pp with P_unlock => idtac | E_unlock _ _ => idtac end end;
+      match pp with P_unlock => idtac | E_unlock _ _ => idtac | PX_unl => idtac end end;
     match goal with |- InvK ?gg (upd _ _ ?ll) =>
       assert (SV : sameV g gg None) by (apply sameV_mtx, sameV_refl);
       assert (NS : nodes_same g gg /\ recs_old g gg) by (apply ns_heap; reflexivity);
@@ -488,6 +501,8 @@ Proof.
         (unfold thrB in Tt; cbn [at_ hnd] in Tt; try unfold privR in Tt;
          first [ exists None; repeat first [apply sameV_tail];
                  first [ apply sameV_refl
+                       | apply sameV_alloc_raw; intros z1 H1; apply (zlog_lt _ ls z1 IB H1)
+                       | apply sameV_dealloc_raw; apply (b_rec _ _ IB)
                        | apply sameV_construct_rec; tauto
                        | apply sameV_setz_priv; tauto
                        | (apply sameV_setn; [apply (wtarget_isnode g ls t _ _ IA Hl); reflexivity|right; reflexivity|cbn; auto])
@@ -501,7 +516,7 @@ Proof.
       destruct SVx as [x0 SV];
       assert (NS : nodes_same g gg /\ recs_old g gg) by
         (unfold thrB in Tt; cbn [at_ hnd] in Tt; try unfold privR in Tt; ns_unwrap;
-         first [ apply ns_heap; reflexivity | apply ns_construct_rec; tauto | apply ns_setz; tauto
+         first [ apply ns_heap; reflexivity | apply ns_alloc_raw | apply ns_dealloc_raw | apply ns_construct_rec; tauto | apply ns_setz; tauto
                | apply ns_setn; apply (wtarget_isnode g ls t _ _ IA Hl); reflexivity ]);
       destruct (h_views g gg ls t _ ll IA Hl eq_refl (ltac:(autorewrite with wm; reflexivity))) as (Hp1 & Hp2 & Hm);
       apply (InvK_frame2 g gg ls t _ ll x0 IK Hl SV (proj1 NS))
@@ -916,11 +931,11 @@ Lemma hd_filter_top g : forall l h, hd_opt l = Some h -> liveb g h = true -> hd_
 Proof. intros l h E L. destruct l as [|x r]; [discriminate|]. cbn in E. inversion E; subst x. cbn. rewrite L. reflexivity. Qed.
 
 Theorem destroy_all (s : sysR) :
-  Inv3 (gl s) (thr s) -> InvK (gl s) (thr s) -> unfixed (gl s) = false -> fault (gl s) = false -> quiet s ->
+  Inv3 (gl s) (thr s) -> InvK (gl s) (thr s) -> InvR (gl s) (thr s) -> unfixed (gl s) = false -> fault (gl s) = false -> quiet s ->
   let g' := fst (destroy_list (gl s)) in
   fault g' = false /\ (ledger_ok (gl s) -> ledger_ok g') /\ forall k c, getc g' k = Some c -> cs c = Freed.
 Proof.
-  intros I3 IK Hu Hf Q.
+  intros I3 IK IR Hu Hf Q.
   pose proof (q_hpc s Q) as Qh. pose proof (q_pc s Q) as Qp. pose proof (q_unowned s I3 Q) as Qu. pose proof (q_link s I3 Q) as Ql.
   pose proof (q_rec_constr s I3 Q) as Qr. pose proof (q_node_of s I3 Q) as Qn.
   set (g := gl s) in *. set (ls := thr s) in *.
@@ -973,7 +988,7 @@ Proof.
   destruct (in_dec Nat.eq_dec k (lst g)) as [Hl|Hl]; [apply (fu_in _ _ _ F1 k Hl)|].
   rewrite (fu_out _ _ _ F1 k Hl).
   (* k is neither in the list nor on the live log nor a node of a live record: it was freed before *)
-  destruct (getc g k) as [[st [nb|rb] a1 a2 a3]|] eqn:Eg; [| |apply getc_ge in Eg || (exfalso; apply nth_error_None in Eg; unfold nheap in Hk; lia)].
+  destruct (getc g k) as [[st [nb|rb|] a1 a2 a3]|] eqn:Eg; [| | |apply getc_ge in Eg || (exfalso; apply nth_error_None in Eg; unfold nheap in Hk; lia)].
   - assert (isnode g k = true) as Hn by (unfold isnode; rewrite Eg; reflexivity).
     assert (cs_of g k = Some st) as Hs by (unfold cs_of; rewrite Eg; reflexivity). rewrite Hs. destruct st; [| | |reflexivity]; exfalso.
     + destruct (k_alloc _ _ IK k Hn Hs) as [o E]. rewrite Qh in E. discriminate.
@@ -984,6 +999,14 @@ Proof.
     assert (cs_of g k = Some st) as Hs by (unfold cs_of; rewrite Eg; reflexivity). rewrite Hs.
     destruct (k_rec _ _ IK k Hr) as [Hz|(u & E)]; [|rewrite (Qp u) in E; discriminate].
     destruct st; [| | |reflexivity]; exfalso; apply Hd; apply dset_In; left; apply Hch; split; auto; rewrite Hs; discriminate.
+  - (* raw storage of a push whose constructor threw: freed by its catch block before the thread finished *)
+    assert (cs_of g k = Some st) as Hs by (unfold cs_of; rewrite Eg; reflexivity). rewrite Hs.
+    assert (Hst : rawst g k = match st with Alloc => 1 | Freed => 2 | _ => 3 end).
+    { unfold rawst, rawsth. change (nth_error (heap g) k) with (getc g k). rewrite Eg. destruct st; reflexivity. }
+    destruct st; [| | |reflexivity]; exfalso.
+    + destruct (r_own _ _ IR k Hst) as (u & l & Hu' & Hn). pose proof (Qp u) as E. unfold pcof, locof in E. fold ls in Hu'. rewrite Hu' in E. rewrite E in Hn. discriminate.
+    + apply (r_no3 _ _ IR k Hst).
+    + apply (r_no3 _ _ IR k Hst).
 Qed.
 
 (* C13, no leak: after every thread has finished and every handle has been released, ~rcu_list frees
@@ -991,10 +1014,11 @@ Qed.
 Theorem exactly_once progs s : R false progs s -> quiet s ->
   let g' := fst (destroy_list (gl s)) in
   fault g' = false /\
-  forall k c, getc g' k = Some c -> cs c = Freed /\ nct c = 1 /\ ndt c = 1 /\ nfr c = 1.
+  forall k c, getc g' k = Some c ->
+    cs c = Freed /\ nfr c = 1 /\ (if israwc c then nct c = 0 /\ ndt c = 0 else nct c = 1 /\ ndt c = 1).
 Proof.
-  intros HR Q. destruct (R_Inv4 _ _ HR) as (I3 & Hu & Hf).
-  destruct (destroy_all s I3 (R_InvK _ _ _ HR) Hu Hf Q) as (A & B & C). split; [exact A|].
+  intros HR Q. destruct (R_Inv4x _ _ HR) as ((I3 & Hu & Hf) & IR).
+  destruct (destroy_all s I3 (R_InvK _ _ _ HR) IR Hu Hf Q) as (A & B & C). split; [exact A|].
   intros k c Hc. pose proof (C k c Hc) as E. split; [exact E|].
   pose proof (B (R_ledger _ _ HR) k c Hc) as L. unfold cell_ok in L. rewrite E in L. exact L.
 Qed.
